@@ -36,10 +36,10 @@ var vTemplates = [...]struct{ pre, post string }{
 	26: {"SIP/2.0 200 ", "X"},
 	27: {"A B ", "X"},
 	// windows at structural boundaries
-	28: {"INVITE sip:a SIP/2.0\r\n", ":x\r\n\r\n"},     // symbolic header name
-	29: {"INVITE sip:a SIP/2.0\r\nX:a", "b\r\n\r\n"},   // inside a generic value (folds, line ends)
-	30: {"INVITE sip:a SIP/2.0", "f:a\r\n\r\n"},        // end of the first line
-	31: {"INVITE sip:a SIP/2.0\r\nf:a", ""},             // end of the header block
+	28: {"INVITE sip:a SIP/2.0\r\n", ":x\r\n\r\n"},   // symbolic header name
+	29: {"INVITE sip:a SIP/2.0\r\nX:a", "b\r\n\r\n"}, // inside a generic value (folds, line ends)
+	30: {"INVITE sip:a SIP/2.0", "f:a\r\n\r\n"},      // end of the first line
+	31: {"INVITE sip:a SIP/2.0\r\nf:a", ""},          // end of the header block
 	32: {"INVITE sip:a SIP/2.0\r\nVia: SIP/2.0/UDP h;branch=z9hG4bKx\r\nm:", "\r\nm:<b>\r\n\r\n"},
 	33: {"SIP/2.0 200 OK\r\nf:<a>;tag=", "\r\nt:b\r\n\r\n"},
 	34: {"INVITE sip:a SIP/2.0\r\nContact: <a>,", "\r\n\r\n"},
@@ -54,19 +54,19 @@ var vTemplates = [...]struct{ pre, post string }{
 	42: {"Expires: 429496729", "\r\nX"},
 	43: {"m:<a>;expires=429496729", "\r\nX"},
 	// windows in the interior of header-specific values
-	44: {"INVITE sip:a SIP/2.0\r\nContact: \"a", "\" <b>;q=0.5\r\n\r\n"},   // inside a quoted display name
-	45: {"INVITE sip:a SIP/2.0\r\nContact: <a>;expires=1", ", <b>\r\n\r\n"},   // after a parameter value
+	44: {"INVITE sip:a SIP/2.0\r\nContact: \"a", "\" <b>;q=0.5\r\n\r\n"},    // inside a quoted display name
+	45: {"INVITE sip:a SIP/2.0\r\nContact: <a>;expires=1", ", <b>\r\n\r\n"}, // after a parameter value
 	46: {"INVITE sip:a SIP/2.0\r\nFrom: a <b>;tag=x", ";y=z\r\n\r\n"},       // after the tag value
-	47: {"INVITE sip:a SIP/2.0\r\nFrom: <b>;", "=v\r\n\r\n"},               // a parameter name
-	48: {"INVITE sip:a SIP/2.0\r\nCSeq: 1", "INVITE\r\n\r\n"},              // between number and method
+	47: {"INVITE sip:a SIP/2.0\r\nFrom: <b>;", "=v\r\n\r\n"},                // a parameter name
+	48: {"INVITE sip:a SIP/2.0\r\nCSeq: 1", "INVITE\r\n\r\n"},               // between number and method
 	49: {"INVITE sip:a SIP/2.0\r\nTo: \"x\" <", ">;tag=t\r\n\r\n"},          // the URI inside <>
-	50: {"", " sip:a SIP/2.0\r\nf:a\r\n\r\n"},                              // the method
-	51: {"SIP/2.0 ", " OK\r\nf:a\r\n\r\n"},                                 // the status code
+	50: {"", " sip:a SIP/2.0\r\nf:a\r\n\r\n"},                               // the method
+	51: {"SIP/2.0 ", " OK\r\nf:a\r\n\r\n"},                                  // the status code
 	52: {"INVITE sip:a SIP/2.0\r\nP-Asserted-Identity: \"a\" <b>", "<c>\r\n\r\n"},
-	53: {"INVITE sip:a SIP/2.0\r\nm:<a>;q=", ";expires=5\r\n\r\n"},          // q value
+	53: {"INVITE sip:a SIP/2.0\r\nm:<a>;q=", ";expires=5\r\n\r\n"}, // q value
 	54: {"INVITE sip:a SIP/2.0\r\nCall-ID:", "\r\nm: *\r\n\r\n"},
-	55: {"REGISTER sip:a SIP/2.0\r\nm:*", "\r\nExpires: 0\r\n\r\n"},        // after the star contact
-	56: {"SIP/2.0 200 O", "f:a\r\n\r\n"},                                  // end of a reply line
+	55: {"REGISTER sip:a SIP/2.0\r\nm:*", "\r\nExpires: 0\r\n\r\n"}, // after the star contact
+	56: {"SIP/2.0 200 O", "f:a\r\n\r\n"},                            // end of a reply line
 	57: {"SIP/2.0 200 O", "X"},
 	// name-addr values (no message around them)
 	58: {"\"a", "\" <b>;q=0.5\r\nX"},
@@ -74,10 +74,14 @@ var vTemplates = [...]struct{ pre, post string }{
 	60: {"a <b>;tag=x", ";y=z\r\nX"},
 	61: {"<b>;", "=v;lr\r\nX"},
 	62: {"\"x\" <", ">;tag=t , <c>\r\nX"},
-	63: {"INVITE sip:a SIP/2.0\r\nl:0\r\n\r\n", ""},      // bytes after a complete message
-	64: {"a=1;", ";c=3?x"},                               // URI parameter list, window in the middle
-	65: {"a=1&", "&c=3\r\nX"},                             // URI header list
+	63: {"INVITE sip:a SIP/2.0\r\nl:0\r\n\r\n", ""}, // bytes after a complete message
+	64: {"a=1;", ";c=3?x"},                          // URI parameter list, window in the middle
+	65: {"a=1&", "&c=3\r\nX"},                       // URI header list
 	66: {"lr;", "=x;ttl=1?y"},
+	67: {"a=\"", "\";b=2\r\nX"}, // inside a quoted parameter value (escapes)
+	68: {"a=\"x", "y\"&b\r\nX"},
+	69: {"", "/2.0 200 OK\r\nf:a\r\n\r\n"}, // the version token of a reply (any letter case)
+	70: {"", "/2.0 200 OK\r\nX"},
 }
 
 // vTpl builds template t with a window of w symbolic bytes.
@@ -117,6 +121,12 @@ func H_chain_at(id, t, w, k int) {
 
 func H_premature(id, t, w int) {
 	vPremature(vParserByID(id), vTpl(t, w), 0)
+}
+
+// H_premature_at: every prefix of a template placed at offset k.
+func H_premature_at(id, t, w, k int) {
+	junk := vBytes(2)
+	vPrematureAll(vParserByID(id), vPad(k, junk, vTpl(t, w)), k, k+1)
 }
 
 func H_offset(id, t, w, k int) {
